@@ -1,4 +1,5 @@
 mod drive_eval;
+mod drive_ops;
 mod enc;
 mod gen;
 mod rng;
@@ -29,6 +30,19 @@ fn main() {
             let st = drive_eval::drive(profile, seed, n, depth, &mut out);
             out.flush().unwrap();
             eprintln!("drive-eval profile={} cases={} compile_fail={} panics={}", profile, st.cases, st.compile_fail, st.panics);
+        }
+        "drive-ops" => {
+            let fam = arg(&args, "--family").unwrap_or("c08");
+            let thorough = arg(&args, "--tier") == Some("thorough");
+            let mut out = std::io::BufWriter::new(std::fs::File::create(&out_path).expect("open out"));
+            let n = match fam {
+                "c08" => drive_ops::drive_c08(seed, thorough, &mut out),
+                "c09" => drive_ops::drive_c09(seed, thorough, &mut out),
+                "cmp-table" => drive_ops::cmp_table(&mut out),
+                _ => panic!("unknown family"),
+            };
+            out.flush().unwrap();
+            eprintln!("drive-ops family={} records={}", fam, n);
         }
         "replay-case" => {
             // re-run one recorded case (source text + context variables) against the current tree
